@@ -783,8 +783,24 @@ def _no_match_raises(repo: Repo, view: FuncInfo, fn: Fn, co: Collections, raises
     uname = dotted(u)
     cfg = cfg_of(view)
     guard_if = _if_of(r)
-    if not cfg.dominates(guard_if, ret):
+
+    def tested_empty(node: ast.AST) -> bool:
+        """`node` only runs if the unmatched collection was tested and found empty (`if not U: return ...` / `if U: raise`)."""
+        for lit, pol in flatten(fn.conds_all(node)):
+            if isinstance(lit, ast.Compare) and len(lit.ops) == 1 and isinstance(lit.left, ast.Call) and isinstance(lit.left.func, ast.Name) and lit.left.func.id == "len" and len(lit.left.args) == 1 and isinstance(lit.comparators[0], ast.Constant):
+                k = lit.comparators[0].value
+                if ((isinstance(lit.ops[0], ast.Gt) and k == 0) or (isinstance(lit.ops[0], ast.GtE) and k == 1)) and not pol and dotted(lit.left.args[0]) == uname:
+                    return True
+                if isinstance(lit.ops[0], ast.Eq) and k == 0 and pol and dotted(lit.left.args[0]) == uname:
+                    return True
+            if not pol and dotted(lit) == uname:
+                return True
+        return False
+
+    if not cfg.dominates(guard_if, ret) and not tested_empty(ret):
         return False, "the result can be returned without the unmatched-pattern test having been made"
+    if not cfg.dominates(guard_if, ret):
+        guard_if = next((a for a in [ret, *ancestors(ret)] if parent(a) is view.node), guard_if)  # the scan must precede this exit
     def top(lp: ast.AST) -> ast.AST:
         for a in ancestors(lp):
             if isinstance(a, (ast.For, ast.AsyncFor, ast.While)):
